@@ -70,6 +70,15 @@ def universe(key, tier):
     return out
 
 
+def plan_length(cid, tier):
+    """quick: 2.  thorough: 3, except level-2 instances with a non-core choice (2)."""
+    if tier == "quick":
+        return 2
+    if len(cid) >= 2 and not all(uprob.pool(s)[i][1] for s, i in cid):
+        return 2
+    return 3
+
+
 def label(key, cid):
     return ",".join("%s#%d" % (s, i) for s, i in cid) or "base"
 
